@@ -39,6 +39,18 @@ CHECKS = {
              "within 1e-9 (checked on every sampled pair, not proved).",
         technique="Lean 4 proof over hand-written models + translator-generated tables + differential / metamorphic correspondence",
         design="§6 C04"),
+    "C05": dict(
+        text="Lean theorems: the model of every UnitValue / UnitArray operator method (forward and reflected, _neg/_inv, **, "
+             "comparisons, Python's dispatch) is a homomorphism onto exact arithmetic on SI values and dimension vectors for all "
+             "expression trees, all valid unit systems and all integer dimension vectors; dimensionally meaningless operations are "
+             "errors (the SI value of scalar ** is a hypothesis of the tree theorem, its dimension rule is proved); operator "
+             "wiring regenerated from units.py. Tie: translator group UnitsOps + correspondence on random "
+             "expression trees and an exhaustive operator x pairing table + per-node SI oracle on the real code.",
+        note="Lean kernel + {propext, Classical.choice, Quot.sound}; translator; correspondence harness; float rounding within "
+             "1e-9 of the magnitude of the added terms (checked on every case, not proved); real power of a positive number is a "
+             "parameter with a stated contract.",
+        technique="Lean 4 proof (structural induction over expression trees) + differential correspondence",
+        design="§6 C05"),
     "C06": dict(
         text="Lean theorems: generated unit tables (regenerated from units.py on every run) have their SI meaning "
              "(whole-table kernel evaluation); conversion factor = ratio of SI values; identity, composition, inverse, "
@@ -49,6 +61,49 @@ CHECKS = {
              "assumed within 1e-12 relative (checked on every sampled case, not proved).",
         technique="Lean 4 proof over translator-generated tables + differential correspondence",
         design="§6 C06"),
+    "C18": dict(
+        text="Lean theorems about the executable model of parse_units / parse_unitvalue / Units.__str__ / UnitValue.__str__ / "
+             "Units.__eq__ (tables and text-pipeline constants regenerated from units.py on every run): print->parse round trip "
+             "for all 1100 valid systems x all integer exponent vectors (own int printer/reader round trip), quantity round trip "
+             "under the float(str(x))=x contract of the trusted primitives, grammar reading (text of any factor list is read back "
+             "as exactly its symbols and signed exponents), dimension = sum of the symbols' dimensions, invariance under "
+             "a/b <-> a.b-1 (whole result) and under factor order (dimension), base units named by every factor, u-spelling, one "
+             "rejection theorem per class of the statement (unknown symbol, doubled / dangling separator, signed positive, "
+             "fractional / misplaced exponent, embedded blank on the raw text, two units of one base kind, value not separated, "
+             "non-numeric value, blank inside a quantity's units). PARTIAL: the SI-scale product formula and 'consistent => "
+             "accepted' are not proved in Lean; they are checked exactly by the oracle. Tie: translator G1/G2 + UnitsText + "
+             "correspondence (all 1-factor strings, all symbol pairs x both separators, random 3-factor strings, round trips, "
+             "malformed families from the documentation's wrong examples) + grammar-denotation / must-raise oracle on the real code.",
+        note="Lean kernel + {propext, Classical.choice, Quot.sound}; translator; correspondence harness; float()/str(float) of "
+             "CPython trusted (bitwise round trip checked on every sampled double); non-ASCII digits and blanks beyond "
+             "str.isspace are outside the model.",
+        technique="Lean 4 proof over translator-generated tables + differential correspondence",
+        design="§6 C18"),
+    "C13": dict(
+        text="Lean theorems: species-major layout (generated stateIndex = s*n+c, injective, in range), cell = z*w*h+y*w+x; the "
+             "generated default-generation constants (fallback key 'default', default density 0, default flag 0, state in the "
+             "network's units); entry (s,i) of the default state is the entry computed for species s and cell i and its SI value is "
+             "SI(density in env(i)) x SI(volume(i)) with dimension amount; default chemostat entry; get/set as an abstract map keyed by "
+             "the entry index incl. unit conversion of the written value (SI preserved), rejection of invalid positions/species without "
+             "writing; regeneration reflects the current species. Tie: translator IndexPy/SystemPy/GeomPy + correspondence of whole "
+             "construct+call sequences (grid and graph spaces, all naming forms, units systems at every level) + SI oracle on the real code.",
+        note="Lean kernel + {propext, Classical.choice, Quot.sound}; translator; correspondence harness; floats within 1e-9 relative; "
+             "unit strings parsed by the package itself (C18).",
+        technique="Lean 4 proof over translator-generated formulas + differential correspondence",
+        design="§6 C13"),
+    "C15": dict(
+        text="Lean theorems for all w,h,d>=1 and all 8 boundary settings: index<->coordinates bijection (index = z*w*h+y*w+x), rejection "
+             "iff the position names no cell (three position forms), are_neighbors symmetric and equal to face adjacency of distinct "
+             "cells per reflecting/periodic axis, engine neighbour table = per-axis step, involutive through opposed_direction, every entry "
+             "a face neighbour; generated rules of get_neighbors / kinetics loop / grid_to_graph tied to the face rules; grid_to_graph "
+             "geometry (S=a^2, d=a, volumes, environments); get_edge symmetric. Tie: translator IndexPy/GeomPy/EngineCpp + exhaustive "
+             "correspondence over all small grids (every cell, pair, position) incl. the real engine's neighbour set observed through "
+             "Euler steps and the kinetics functions' through derivatives + oracle; grid vs grid_to_graph trajectories / rate law on the real code.",
+        note="Lean kernel + {propext, Classical.choice, Quot.sound}; translator; correspondence harness. Partial: get_neighbors_iff / "
+             "kinetics_enum_iff / engine_nbr_iff (converse directions) and the grid_to_graph edge-multiset theorem are not proved for all "
+             "sizes (exhaustively checked for w,h,d<=3 quick / <=5 thorough); graph_rate_eq_grid_rate needs C01's engine model.",
+        technique="Lean 4 proof over translator-generated formulas + exhaustive differential correspondence",
+        design="§6 C15"),
 }
 
 ALL = ["C%02d" % i for i in range(1, 21)]
